@@ -185,6 +185,40 @@ type c17Point struct {
 	Site string `json:"site"`
 	Dest string `json:"dest"`
 	Wire bool   `json:"wire,omitempty"`
+	// deployment variant: host_identity not configured (the loader derives it from
+	// the host name) and the Host header the request arrives with
+	NoHostIdentity bool   `json:"no_host_identity,omitempty"`
+	ReqHost        string `json:"req_host,omitempty"`
+}
+
+// c17Variants: every site x a handful of accepted destinations x {host_identity
+// configured / derived} x request Host {absent, own name, own name with port, alias}
+func c17VariantDests() []string {
+	return append(c17Good(), "/evil.com", "/evil.com/x", "/evil.com@"+vfHost, "/.evil.com/", "/@evil.com/")
+}
+
+func c17VariantRun(site c17Site, p c17Point) (violated bool, key, what, class string, herr string) {
+	w := c17World()
+	defer w.Close()
+	if p.NoHostIdentity {
+		w.state.Config.Base.HostIdentity = ""
+	}
+	if site.Prep != nil {
+		site.Prep(w)
+	}
+	req := site.Run(w, p.Dest)
+	if req == nil {
+		return false, "", "", site.Name + "|driver-could-not-start", ""
+	}
+	req.Host = p.ReqHost
+	resp := w.Do(req)
+	loc := vfWireHeader(resp.Header.Get("Location"))
+	v, k, wh, cl := c17Judge(site, p.Dest, resp, loc)
+	if v {
+		k += "|deployment-variant"
+		wh += fmt.Sprintf(" (host_identity configured=%v, request Host %q)", !p.NoHostIdentity, p.ReqHost)
+	}
+	return v, k, wh, fmt.Sprintf("variant|nohostid=%v|%s", p.NoHostIdentity, cl), ""
 }
 
 func c17DestClass(d string) string {
@@ -306,7 +340,7 @@ func init() {
 	vfRegister(&vfeng.Check{
 		ID:    "C17",
 		Level: "model_checking",
-		Rule:  "exhaustive destination grammar (every prefix of length <=3 over 14 symbols, every C0 control and 9 non-printable Unicode runes at positions 0-2, scheme-like prefixes, absolute URLs starting with this server's own origin text followed by 13 authority-changing tails) x 4 bodies, plus every prefix of length <=2 x 4 bodies x 10 tails that force URL re-serialisation (invalid path characters, broken escapes) x every driven redirect site (login form/query/GET, TOTP, bootstrap OTP, VIP OTP, federated callback) on the real handlers' success paths; Location (as net/http puts it on the wire; conformance-checked through a real http.Server) resolved with WHATWG rules must stay on keymasterd's origin; class = (site, outcome, destination class)",
+		Rule:  "exhaustive destination grammar (every prefix of length <=3 over 14 symbols, every C0 control and 9 non-printable Unicode runes at positions 0-2, scheme-like prefixes, absolute URLs starting with this server's own origin text followed by 13 authority-changing tails) x 4 bodies, plus every prefix of length <=2 x 4 bodies x 10 tails that force URL re-serialisation (invalid path characters, broken escapes) x every driven redirect site (login form/query/GET, TOTP, bootstrap OTP, VIP OTP, federated callback) on the real handlers' success paths; Location (as net/http puts it on the wire; conformance-checked through a real http.Server) resolved with WHATWG rules must stay on keymasterd's origin; plus every site x 10 accepted destinations x {host_identity configured, derived from the host name} x request Host {absent, own, own:443, alias, own:8443}; class = (site, outcome, destination class)",
 		Assumptions: []string{"browser URL resolution is modelled by the WHATWG subset in whatwg.go", "net/http's header sanitisation (CR/LF to space, trim) is applied to recorder output and validated against a real http.Server on loopback for a sample of points and for every violation"},
 		Bounds: func(tier string) map[string]interface{} {
 			return map[string]interface{}{"destinations": len(c17Destinations()), "sites": len(c17Sites())}
@@ -352,6 +386,30 @@ func init() {
 					}
 				}
 			}
+			for _, site := range sites {
+				for _, d := range c17VariantDests() {
+					for _, nohid := range []bool{false, true} {
+						for _, rh := range []string{"", vfHost, vfHost + ":443", "alias." + vfHost, vfHost + ":8443"} {
+							i++
+							if !c.Mine(i) {
+								continue
+							}
+							p := c17Point{Site: site.Name, Dest: d, NoHostIdentity: nohid, ReqHost: rh}
+							v, key, what, class, herr := c17VariantRun(site, p)
+							c.Eval(1)
+							if herr != "" {
+								c.Res.HarnessErr = herr
+								return
+							}
+							if v {
+								c.Violate(key, what, p)
+							} else {
+								c.Class(class, p)
+							}
+						}
+					}
+				}
+			}
 			if c.Shard == 0 {
 				for _, s := range vfRedirectSites {
 					if s.Const {
@@ -370,6 +428,14 @@ func init() {
 			var p c17Point
 			if err := json.Unmarshal(raw, &p); err != nil {
 				return false, err.Error()
+			}
+			if p.NoHostIdentity || p.ReqHost != "" {
+				for _, site := range c17Sites() {
+					if site.Name == p.Site {
+						v, key, what, class, _ := c17VariantRun(site, p)
+						return v, key + " :: " + what + class
+					}
+				}
 			}
 			w := c17World()
 			defer w.Close()
